@@ -231,6 +231,36 @@ int main(int argc, char **argv) {
       else { rc2 = LIB(asm_assemble_file_counting_chunks(al, path, 4, &cnt)); OUT(); }
       printf("asm2=%d off2=%d count=%d\n", rc2, asm_get_offset(al), cnt);
       unlink(path);
+    } else if (!strcmp(sc, "file3") || !strcmp(sc, "file3_count")) {
+      /* three file calls on ONE instance: a short file, a much longer one, the short one again — whatever the library keeps
+         between file calls (buffers, descriptors) is exercised with a refusal in the middle of the history.  asm2/off2/offb
+         describe the call during which the fault fired (the last call when none fired); others_ok: every other call
+         succeeded and produced the code the same text gives through asm_assemble_str on a fresh instance */
+      char *longtxt = __real_malloc(400 * 40 + 64);
+      char *w = longtxt;
+      for (int i = 0; i < 400; i++) w += sprintf(w, i % 3 ? "add rcx, rdx\n" : "mov rcx, 0x5 ; c\n");
+      const char *texts[3] = { "mov rcx, 0x5\nadd rcx, rdx\nnop\nret\n", longtxt, "push r12\npop r12\nret\n" };
+      int others_ok = 1, rep_rc = -9, rep_off = -9, rep_offb = -9, rep_cnt = -7;
+      for (int i = 0; i < 3; i++) {
+        write_file(path, texts[i]);
+        int before = asm_get_offset(al), f0 = fired, cnt = -7, rc;
+        if (!strcmp(sc, "file3")) { rc = LIB(asm_assemble_file(al, path)); OUT(); }
+        else { rc = LIB(asm_assemble_file_counting_chunks(al, path, 4, &cnt)); OUT(); }
+        int after = asm_get_offset(al);
+        if (fired != f0 || (i == 2 && rep_rc == -9)) { rep_rc = rc; rep_off = after; rep_offb = before; rep_cnt = cnt; }
+        if (fired == f0) {
+          static uint8_t fb[40000];
+          assemblyline_t fr = asm_create_instance(fb, sizeof fb);
+          int rr = asm_assemble_str(fr, texts[i]);
+          int fl = asm_get_offset(fr);
+          if (rc != 0 || rr != 0 || after - before != fl || memcmp(asm_get_code(al) + before, fb, fl) != 0) others_ok = 0;
+          asm_destroy_instance(fr);
+        }
+        unlink(path);
+      }
+      printf("offb=%d\n", rep_offb);
+      printf("asm2=%d off2=%d count=%d others_ok=%d\n", rep_rc, rep_off, rep_cnt, others_ok);
+      free(longtxt);
     } else if (!strcmp(sc, "binfile")) {
       int rc2 = LIB(asm_create_bin_file(al, path)); OUT();
       printf("bin=%d\n", rc2);
